@@ -204,7 +204,7 @@ def post_init(self):
 # --------------------------------------------------------------------------------------
 # specifications
 
-NAMES = ["x", "y", "z", "_p", "w", "_q_"]
+NAMES = ["x", "y", "z", "_p", "w", "_q_", "_x"]
 CONV_KINDS = [None, None, ("plain", False), ("plain", True), ("conv", False, False, False),
               ("conv", True, False, False), ("conv", False, True, False), ("conv", True, True, True)]
 
@@ -228,7 +228,7 @@ def gen_field(rng, name, cls_uid, allow_hooks=True):
     return f
 
 
-def gen_class_spec(rng, uid, base=None, hooks_ok=True):
+def gen_class_spec(rng, uid, base=None, hooks_ok=True, extras=False):
     """base: an already built ClassUnderTest or None."""
     api = rng.choice(["attrs", "attrs", "define"])
     s = {"uid": uid, "api": api, "base": base}
@@ -251,7 +251,7 @@ def gen_class_spec(rng, uid, base=None, hooks_ok=True):
     if r < 0.35 and hooks_ok:
         s["on_setattr"] = rng.choice(["NO_OP", "validate", "convert", "list_cv", "user", "list_user2"])
     n_fields = rng.choice([0, 1, 1, 2, 2, 3, 3, 4])
-    pool = NAMES[:]
+    pool = NAMES[:] if extras else [n for n in NAMES if n != "_x"]   # extras: opt-in dimensions (C01/C02)
     rng.shuffle(pool)
     names = pool[:n_fields]
     if base is not None and base.field_names and rng.random() < 0.4 and names:
@@ -260,6 +260,17 @@ def gen_class_spec(rng, uid, base=None, hooks_ok=True):
     frozen_eff = s["frozen"] or base_frozen
     allow_field_hooks = hooks_ok and (not frozen_eff or rng.random() < 0.15)
     s["fields"] = [gen_field(rng, n, uid, allow_field_hooks) for n in names]
+    if "x" in names and "_x" in names:
+        # two fields whose default aliases coincide: legal only if at most one is an init parameter;
+        # give both factories so that their helpers must not be mixed up
+        fx, f_x = [f for f in s["fields"] if f["name"] == "x"][0], [f for f in s["fields"] if f["name"] == "_x"][0]
+        loser = rng.choice([fx, f_x])
+        loser["init"] = False
+        fx["default"] = ("factory", rng.random() < 0.3)
+        f_x["default"] = ("factory", rng.random() < 0.3)
+    # an undecorated class between the base and this class (dict leaves only: the slotted build's
+    # immediate-bases-only reset is the documented K6 limitation)
+    s["plain_between"] = bool(extras and base is not None and not s["slots"] and rng.random() < 0.25)
     if frozen_eff and s["on_setattr"] not in (None, "NO_OP") and rng.random() < 0.85:
         s["on_setattr"] = None
     return s
@@ -364,6 +375,8 @@ class ClassUnderTest:
         if s["post"]:
             body["__attrs_post_init__"] = post_init
         bases = (base.cls,) if base is not None else ((Exception,) if s["exc"] else (object,))
+        if base is not None and s.get("plain_between"):
+            bases = (type("P" + uid, (base.cls,), {}),)
         kwargs = {}
         if s["slots"] != (s["api"] == "define"):
             kwargs["slots"] = s["slots"]
